@@ -7,7 +7,7 @@ CONSTANTS
   NBug = "none"
   NVSpace = "d1"
   NCompoundV = "small"
-  NKinds = {"isinstance", "issubclass", "typeis", "typeguard", "is", "eq", "in", "truthy", "len", "cmp", "c_isinstance", "c_isvalue", "match", "matchseq", "not", "and", "or", "deep"}
+  NKinds = {"isinstance", "issubclass", "typeis", "typeguard", "is", "eq", "in", "truthy", "len", "cmp", "lenr", "c_isinstance", "c_isvalue", "match", "matchseq", "not", "and", "or", "deep"}
 INVARIANT EmitObjs
 INVARIANT EmitV
 INVARIANT EmitDone
